@@ -706,11 +706,18 @@ class Rel:
         # subterms that are comparable
         return u
 
-    def lt(self, a, b):
+    def lt(self, a, b, depth=0):
         if self._reach(a, b, True):
             return True
         if b[0] == "min":
             return self.lt(a, b[1]) and self.lt(a, b[2])        # greatest lower bound
+        if depth == 0:
+            # a < max(x, b) and x <= a  =>  a < b
+            for M in self.universe((a, b)):
+                if M[0] == "max" and b in (M[1], M[2]) and M[1] != M[2]:
+                    other = M[2] if M[1] == b else M[1]
+                    if self._reach(a, M, True) and self.le(other, a, 2):
+                        return True
         return False
 
     def le(self, a, b, depth=0):
